@@ -1,6 +1,7 @@
 package props
 
 import (
+	"encoding/binary"
 	"fmt"
 	"strings"
 
@@ -19,7 +20,7 @@ type c07 struct{ base }
 func init() {
 	runner.Register(&c07{base{
 		id: "C07", level: "fault_enumeration",
-		rule: "seeded search over files written with checksums (none/zstd/lz4 chunks, attachments); per file the stored-byte fault is enumerated exhaustively: EVERY single-bit flip of every byte of every chunk's stored records field, plus seeded multi-byte overwrites and byte-range swaps inside it, read through Lexer{ValidateChunkCRCs} and Lexer{ValidateChunkCRCs, EmitInvalidChunks}; and EVERY single-bit flip inside every attachment record body (fields, data, crc) read through the attachment callback with ComputeAttachmentCRCs. oracle: records emitted before the first report are a prefix of the pristine stream; then either the complete pristine stream (immaterial flip - never accepted for an uncompressed chunk) or an error / invalid-chunk token before any record of the damaged chunk; after an invalid-chunk token only pristine records follow. attachment: error, or computed != stored crc, or content identical - never altered content with agreeing CRCs. distinct by (compression, config class, op-shape class, reader mode, fault kind)",
+		rule: "seeded search over files written with checksums (none/zstd/lz4 chunks, attachments); per file the stored-byte fault is enumerated exhaustively: EVERY single-bit flip of every byte of every chunk's stored records field, plus seeded multi-byte overwrites and byte-range swaps inside it and, for compressed chunks, replacement payloads of the same length that are well-formed streams carrying one more (forged) record behind the declared size, read through Lexer{ValidateChunkCRCs}, Lexer{ValidateChunkCRCs, EmitInvalidChunks} and, for a quarter of the faults, the latter with MaxDecompressedChunkSize one byte below the damaged chunk's size (the options struct is zeroed after NewLexer); and EVERY single-bit flip inside every attachment record body (fields, data, crc) read through the attachment callback with ComputeAttachmentCRCs. oracle: records emitted before the first report are a prefix of the pristine stream; then either the complete pristine stream (immaterial flip - never accepted for an uncompressed chunk) or an error / invalid-chunk token before any record of the damaged chunk; after an invalid-chunk token only pristine records follow. attachment: error, or computed != stored crc, or content identical - never altered content with agreeing CRCs. distinct by (compression, config class, op-shape class, reader mode, fault kind)",
 		assumptions: []string{
 			"a chunk whose true CRC-32 is 0 (p=2^-32) cannot be validated; not generated deliberately",
 			"the non-indexed iterator offers no validation switch and is out of scope",
@@ -64,8 +65,19 @@ func (p *c07) checkChunkFault(sc *runner.Scenario, w *world, pristine map[string
 	if comp == "" {
 		comp = "none"
 	}
-	for _, mode := range []string{"validate", "emit_invalid"} {
-		spec := drive.LexSpec{Validate: true, EmitInvalid: mode == "emit_invalid", AttachCB: true, ComputeCRC: true, MaxTokens: 200000}
+	modes := []string{"validate", "emit_invalid"}
+	if f.Kind != "bit_flip" || scen.Mix(uint64(f.Off), uint64(f.Bit), 11)%4 == 0 {
+		if span.c.UncompressedSize >= 2 {
+			// additionally with a decompressed-size limit that the damaged chunk exceeds by one byte:
+			// the chunk has to be refused, whatever else is configured
+			modes = append(modes, "emit_invalid_limit")
+		}
+	}
+	for _, mode := range modes {
+		spec := drive.LexSpec{Validate: true, EmitInvalid: mode != "validate", AttachCB: true, ComputeCRC: true, MaxTokens: 200000}
+		if mode == "emit_invalid_limit" {
+			spec.MaxChunk = int(span.c.UncompressedSize) - 1
+		}
 		st.Doing(&f, fmt.Sprintf("chunk:%d:%s", ci, mode))
 		lr := drive.LexAll(simdisk.NewSource(img, scen.Delivery{Kind: "full"}, nil), spec)
 		st.Evaluations++
@@ -88,6 +100,10 @@ func (p *c07) checkChunkFault(sc *runner.Scenario, w *world, pristine map[string
 			continue
 		}
 		want := pristine[mode]
+		if mode == "emit_invalid_limit" {
+			want = pristine["emit_invalid"]
+			st.Inc("probe.size_limit_below_damaged_chunk")
+		}
 		// strip invalid_chunk markers, remembering where the first one is
 		firstInvalid := -1
 		var plain []*model.Rec
@@ -317,6 +333,20 @@ func (p *c07) Check(sc *runner.Scenario, st *runner.Stats, pin string) *runner.V
 				}
 			}
 		}
+		// a replacement payload of the same stored length that is itself a well-formed compressed
+		// stream: it decompresses to the declared number of bytes followed by one more, forged, record
+		for variant := 0; variant < 3 && comp != "none"; variant++ {
+			repl := reframe(sp.c, variant)
+			if repl == nil {
+				st.Inc("probe.reframe_no_fit." + comp)
+				continue
+			}
+			st.Inc("probe.reframe." + comp)
+			f := scen.Fault{Kind: "overwrite", Off: sp.c.RecordsOff, Bytes: repl}
+			if v := p.checkChunkFault(sc, w, pristine, spans, ci, f, st, pin); v != nil {
+				return v
+			}
+		}
 		st.Inc("probe.chunk_payload_enumerated." + comp)
 		if nontrivial {
 			st.DistinctCase(gen.CfgClass(*sc.Cfg) + "|" + gen.Shape(*sc.WL) + "|chunk|" + comp)
@@ -337,6 +367,51 @@ func (p *c07) Check(sc *runner.Scenario, st *runner.Stats, pin string) *runner.V
 		}
 	}
 	return nil
+}
+
+// reframe builds a replacement for a compressed chunk's stored bytes, of exactly the same
+// length: a well-formed zstd / lz4 stream whose content is the declared number of bytes
+// (variant 0: the original content, 1: the original with one bit flipped, 2: zeros) followed
+// by a forged message record, padded with a skippable frame. nil when it cannot be made to fit.
+func reframe(c *refmcap.Chunk, variant int) []byte {
+	if c.DecompErr != nil || uint64(len(c.Decompressed)) != c.UncompressedSize {
+		return nil
+	}
+	content := append([]byte{}, c.Decompressed...)
+	switch variant {
+	case 1:
+		if len(content) == 0 {
+			return nil
+		}
+		content[len(content)/2] ^= 0x10
+	case 2:
+		for i := range content {
+			content[i] = 0
+		}
+	}
+	forged := refmcap.MessageBody(&refmcap.Message{ChannelID: 0, Sequence: 7, LogTime: 1, PublishTime: 1, Data: []byte("FORGED")})
+	content = append(content, refmcap.OpMessage)
+	content = binary.LittleEndian.AppendUint64(content, uint64(len(forged)))
+	content = append(content, forged...)
+	frame, err := refmcap.Compress(c.Compression, content)
+	if err != nil {
+		return nil
+	}
+	pad := len(c.Records) - len(frame)
+	if pad < 0 || (pad > 0 && pad < 8) {
+		return nil
+	}
+	if pad >= 8 {
+		skip := make([]byte, pad)
+		magic := uint32(0x184D2A50)
+		binary.LittleEndian.PutUint32(skip, magic)
+		binary.LittleEndian.PutUint32(skip[4:], uint32(pad-8))
+		frame = append(frame, skip...)
+	}
+	if string(frame) == string(c.Records) {
+		return nil
+	}
+	return frame
 }
 
 func min64(a, b int64) int64 {
